@@ -441,7 +441,7 @@ func c02Enum(thorough bool) mc.Enum {
 		}
 	}
 	e.Cases = append(e.Cases, c02ChallengeCase(40, 1), c02ChallengeCase(130, 1))                                       // challenged indices with two and three digits
-	e.Cases = append(e.Cases, c02DeepCase()) // a proof 23 hashes deep
+	e.Cases = append(e.Cases, c02DeepCase())                                                                           // a proof 23 hashes deep
 	e.Cases = append(e.Cases, c02ChallengeCasePT(9, 4, 1), c02ChallengeCasePT(12, 3, 7), c02ChallengeCasePT(5, 1, -1)) // files posted with other proof types
 	Is := []int64{2, 3, 4}
 	windows := 3
